@@ -43,6 +43,9 @@ type Chan struct {
 	// selsends is the subset of sends originating from select operations.
 	selsends uint16
 	close    bool
+	// rdone points at the completion flag of the receiver that currently owns
+	// the unbuffered hand-off slot (getp == chanHasRecv).
+	rdone *bool
 }
 
 func NewChan(eltSize, cap int) *Chan {
@@ -98,6 +101,7 @@ func ChanTrySend(p *Chan, v unsafe.Pointer, eltSize int) bool {
 		if p.data != nil {
 			c.Memcpy(p.data, v, uintptr(eltSize))
 		}
+		*p.rdone = true
 		p.getp = chanNoSendRecv
 	} else {
 		if p.len == n || p.close {
@@ -135,6 +139,7 @@ func ChanSend(p *Chan, v unsafe.Pointer, eltSize int) bool {
 		if p.data != nil {
 			c.Memcpy(p.data, v, uintptr(eltSize))
 		}
+		*p.rdone = true
 		p.getp = chanNoSendRecv
 	} else {
 		for p.len == n && !p.close {
@@ -160,6 +165,7 @@ func ChanTryRecv(p *Chan, v unsafe.Pointer, eltSize int) (recvOK bool, tryOK boo
 
 func chanTryRecv(p *Chan, v unsafe.Pointer, eltSize int, acceptSelectSend bool) (recvOK bool, tryOK bool) {
 	n := p.cap
+	var done bool
 	p.mutex.Lock()
 	if n == 0 {
 		if p.sends == 0 || p.getp == chanHasRecv || p.close {
@@ -173,6 +179,7 @@ func chanTryRecv(p *Chan, v unsafe.Pointer, eltSize int, acceptSelectSend bool) 
 		}
 		p.getp = chanHasRecv
 		p.data = v
+		p.rdone = &done
 	} else {
 		if p.len == 0 {
 			tryOK = p.close
@@ -190,10 +197,14 @@ func chanTryRecv(p *Chan, v unsafe.Pointer, eltSize int, acceptSelectSend bool) 
 	p.cond.Broadcast()
 	if n == 0 {
 		p.mutex.Lock()
-		for p.getp == chanHasRecv && !p.close {
+		for !done && !p.close {
 			p.cond.Wait(&p.mutex)
 		}
-		recvOK = !p.close
+		if !done && p.getp == chanHasRecv && p.rdone == &done {
+			// closed before any sender arrived: withdraw the posted receive
+			p.getp = chanNoSendRecv
+		}
+		recvOK = done
 		tryOK = recvOK
 		p.mutex.Unlock()
 	} else {
@@ -204,6 +215,7 @@ func chanTryRecv(p *Chan, v unsafe.Pointer, eltSize int, acceptSelectSend bool) 
 
 func ChanRecv(p *Chan, v unsafe.Pointer, eltSize int) (recvOK bool) {
 	n := p.cap
+	var done bool
 	p.mutex.Lock()
 	if n == 0 {
 		for p.getp == chanHasRecv && !p.close {
@@ -215,6 +227,7 @@ func ChanRecv(p *Chan, v unsafe.Pointer, eltSize int) (recvOK bool) {
 		}
 		p.getp = chanHasRecv
 		p.data = v
+		p.rdone = &done
 	} else {
 		for p.len == 0 {
 			if p.close {
@@ -234,10 +247,13 @@ func ChanRecv(p *Chan, v unsafe.Pointer, eltSize int) (recvOK bool) {
 	p.cond.Broadcast()
 	if n == 0 {
 		p.mutex.Lock()
-		for p.getp == chanHasRecv && !p.close {
+		for !done && !p.close {
 			p.cond.Wait(&p.mutex)
 		}
-		recvOK = !p.close
+		if !done && p.getp == chanHasRecv && p.rdone == &done {
+			p.getp = chanNoSendRecv
+		}
+		recvOK = done
 		p.mutex.Unlock()
 	} else {
 		recvOK = true
